@@ -490,6 +490,16 @@ _ADDENDA10 = {
     'C20': "The same format spec rendered for two formatter instances of one class uses each report's own formatter; no "
            "Feedback subclass constructor re-runs the base constructor after it failed (R11).",
 }
+_ADDENDA11 = {
+    'C04': "A compile error whose SyntaxError carries no position, text or file name (null byte) is rendered by pedal's "
+           "real traceback classes under every version switch and every shipped formatter without raising (R7).",
+    'C09': "The end-of-scope unused report is decided by executing witness programs (never read, `_`, read afterwards).",
+    'C12': "A SyntaxError without a file name is carried from verify() through the real syntax_error / "
+           "ExpandedTraceback / formatter chain without raising (R9); the frame pedal makes up for a SyntaxError is "
+           "built by executing build_traceback for errors with and without a position.",
+}
+for _k, _v in _ADDENDA11.items():
+    CLAIMS[_k]['text'] = CLAIMS[_k]['text'].rstrip() + ' ' + _v
 for _k, _v in _ADDENDA10.items():
     CLAIMS[_k]['text'] = CLAIMS[_k]['text'].rstrip() + ' ' + _v
 for _k, _v in _ADDENDA4.items():
